@@ -16,10 +16,16 @@ META = dict(
          "deterministic chain whose commitment is in the chain parameters, each abstract file is concretised into real bytes, loadtxoutset's steps are "
          "executed, and success/failure, identity/tip/coins of the existing chainstate, the coins of the snapshot chainstate and the outcome of "
          "background validation (incl. coin sets tampered with as the unit tests do) are compared. Random bit flips, truncations, deletions and appended "
-         "bytes are classified by an independent decoder of the format and must be refused unless the decoded coin set is the original.",
+         "bytes are classified by an independent decoder of the format and must be refused unless the decoded coin set is the original. "
+         "Process death: a second TLA+ module spells ActivateSnapshot out as its separate steps with a Crash action between them and a Restart that follows "
+         "LoadAssumeutxoChainstate (adopt iff the base_blockhash marker exists); TLC proves that the node never runs on, and background validation never blesses, "
+         "a snapshot chainstate whose coins were not compared equal to the commitment, and re-derives the counterexample for the order 'marker first'; the harness "
+         "kills a forked on-disk node at every observable step boundary and restarts a node on the files left behind.",
     note="SAFE mode: a refusal of something the specification would accept is counted (diverged_conservative), not reported. One base (height 200 of the "
          "deterministic chain; the entries at 110 and 299 serve as 'assumeutxo hash whose header is unknown'). The coin codec (VARINT, amount and script "
-         "compression) is the library's on both sides (property C18); HASH_SERIALIZED is treated as injective. Restart with a snapshot chainstate on disk is not covered.",
+         "compression) is the library's on both sides (property C18); HASH_SERIALIZED is treated as injective. Crash points are the step boundaries that emit a log "
+         "line (process kill, not power loss); with 200 coins there is no intermediate flush during the load. Re-activation over a leftover, marker-less snapshot "
+         "directory is not covered.",
     technique="TLA+ spec Snapshot (procedural loader = declarative statement on a mutation table, TLC) + table/graph replay on a real ChainstateManager + decoder-classified byte damage",
 )
 
